@@ -16,3 +16,13 @@ register('C19', 'model_checking',
          "concrete times); dtype=object stands for the float dtype; float() inside base_backend stubbed to identity on "
          "symbols",
          "symbolic execution of the real class (symx path exploration + z3)", "7/C19")
+register('C03', 'model_checking',
+         "Fixed-step part of the property. The real Euler/Heun kernels of the NumPy, Torch and JAX backends run "
+         "symbolically with an UNINTERPRETED vector field and symbolic initial state; z3 proves each stored row is the "
+         "right iterate, exactly round(T/dts) rows exist and all are written (so the result holds for every vector "
+         "field). BaseBackend.run's time axis is explored over symbolic reals T, step (times[k] == k*step). The tail of "
+         "CircuitTemplate.run (slicing, DataFrame, cutoff) is exercised by tag-flow runs over (T, dt, dts, cutoff) grids.",
+         "reals for floats; steps <= 8/14, store_step <= 4/6; jax.lax.scan and torch.empty are library models; the "
+         "glue layer is concrete enumeration; adaptive solvers (scipy solve_ivp/ode, diffrax) are NOT claimed: there is "
+         "nothing to encode within reach (DESIGN.md section 9)",
+         "symbolic execution of the real solver kernels with uninterpreted vector field (symx + z3)", "7/C03")
